@@ -291,3 +291,16 @@ func (p *Program) Graph(conservative bool) *callgraph.Graph {
 	}
 	return p.VTA
 }
+
+// PkgPathOf returns the import path of the package a function (or the function a closure is declared in) belongs to;
+// "" for synthetic functions without a package.
+func PkgPathOf(fn *ssa.Function) string {
+	o := Outer(fn)
+	if o.Pkg != nil {
+		return o.Pkg.Pkg.Path()
+	}
+	if org := o.Origin(); org != nil && org.Pkg != nil {
+		return org.Pkg.Pkg.Path()
+	}
+	return ""
+}
